@@ -42,6 +42,60 @@ CHECKS = {
         "Every byte length 0..size of an image file x 5 rpc x 2 types through sar_image.open_image; through open_alos2 at every length (thorough) or at every record/field boundary +-1 and every 16th byte (quick); leader and volume directory cuts; every single missing file x use_cache x 3 filesystems. Each outcome must be 'raises' (OSError family for missing files) or 'returns and every declared line loads and equals the truth'; failing opens may not issue more filesystem events than the intact open.",
         "a cut file is modelled as a shorter file; wall-clock promptness is replaced by a deterministic event-count bound",
     ),
+    "C03": (
+        "exploration",
+        "deviation-bounded exhaustive enumeration over line-record and header fields (field x value alphabet x line, calendar boundary stamps, optional header fields x blank/0/value/full width) against the reference tree model",
+        "Both record types; every prefix field receives {0, 1, mid, max, high bit} / every enum code / flag 0,1,2 on a line, per-file constants on all lines, every (year, day, ms) of the boundary set and us stamps; each product is opened with open_alos2 and every /imagery leaf (per-line values in file order, units, constants as attributes, header attributes present iff non-blank) is compared with the reference model.",
+        "trusts the frozen prefix layouts (544/192 bytes) and leaf rules; a blank interleaving id may be absent or ''; level-1.1 nested sections are expected flattened as <section>_<field>",
+    ),
+    "C05": (
+        "exploration",
+        "complete enumeration of the small framing domains (attitude points, channels, facility lengths, map projection count, file pointers, trailer images) with whole-tree comparison against the reference model",
+        "Every admissible N / length of every variable-length record is synthesized with distinct values in every record, so a record decoded from a neighbour's bytes is a leaf mismatch; the trailer is parsed through read_sar_trailer and every image compared with its own byte range.",
+        "trailer shape orientation not pinned (multiset); attitude time leaves excluded (C17)",
+    ),
+    "C12": (
+        "exploration",
+        "exhaustive inspection of every node, variable and attribute of products of all levels x map projection x image count and of extreme/blank deviations, plus a selection alphabet for the declared-vs-loaded clause",
+        "For every variable: dtype is a numpy dtype of an allowed kind, declared shape/dtype equal the loaded ones; attributes are plain; nbytes/repr work on the tree and every node; 60 selections per image compared before/after load.",
+        "allowed kinds b,i,u,f,c,M,m,U,S; selections that raise are C02's subject",
+    ),
+    "C13": (
+        "exploration",
+        "enumeration of image-name sets (all singles, all ordered pairs, rotations/reversals for k=3..8), levels, map projection and summary section orders with whole-tree comparison against the reference model",
+        "Each image has its own size and id-coded pixels, so swapped or dropped groups are leaf mismatches; /imagery child order, root children, root attributes, metadata groups and coordinate promotion are checked; all 8! section orders go through the summary seam and are compared with the first order.",
+        "B- and F-method scans of equal number are not mixed in one product",
+    ),
+    "C14": (
+        "exploration",
+        "exhaustive enumeration of line orders / value shapes for well-formed summaries and of all 2^12 corruption subsets x 10 corruption kinds for malformed ones, with an independent line recogniser and summary reference model",
+        "Well-formed texts must produce exactly the reference summary leaves under every rotation, transposition, per-section permutation, CRLF, and 3..10 product files; malformed texts must raise one error group naming exactly the corrupted lines (one numbering base).",
+        "values are printable ASCII without line separators; numbering base 0 or 1 accepted",
+    ),
+    "C15": (
+        "exploration",
+        "complete enumeration of the identifier language (3600 product ids, type x polarisation x scan shapes, all dates 2014-2049) and of all edit-distance-1 near misses of 6 base strings, classified by a table-driven recogniser",
+        "All 3600 ids are opened as products (summary attributes and image group names compared with the tables); file names go through decode_filename (1.5M in the thorough tier); near misses must raise ValueError when outside the language and decode exactly when inside.",
+        "two-digit-year pivot valid until 2064; unknown three-letter file types left undecided",
+    ),
+    "C16": (
+        "exploration",
+        "deviation-bounded exhaustive enumeration over the volume directory's text fields, creation timestamps and file-pointer counts against the reference root attributes",
+        "Every text field x content alphabet (blank, 1 char, full width, spaces, punctuation, quotes), the timestamp boundary product and 0..12 file pointers; the root attributes must be exactly the documented set with stripped text and the ISO 8601 form of the same instant.",
+        "printable ASCII only",
+    ),
+    "C17": (
+        "exploration",
+        "exhaustive enumeration of instants (every day 2014-2049 x 3 times in the thorough tier) written simultaneously into every time-bearing field, each decoded leaf compared with the instant",
+        "Image line stamps, us-of-day stamps, attitude points, platform-position first point, scene-centre text, volume creation text and summary date-times must all decode to the same instant at their stored resolution; the known attitude +1 day defect (D11) is matched by its exact signature only.",
+        "day-of-year 1 = 1 January; leap seconds not modelled",
+    ),
+    "C20": (
+        "exploration",
+        "exhaustive enumeration of blanked nullable fields (single, per record, pairs) and rewritten spare areas (each content class), plus a byte-by-byte influence map in the thorough tier, against the reference model and a differential oracle for unmodelled leaves",
+        "Blank float -> NaN, int -> -1, text -> '' at exactly that leaf, header attributes absent, nothing else changes, no exception; every spare/blank/reserved area and length-dependent padding may hold any content of its class without changing any leaf of the tree (modelled or not).",
+        "doubtful fields are treated as required (exempt); text areas printable ASCII, numeric spares numbers",
+    ),
 }
 
 PENDING = {}
